@@ -184,9 +184,12 @@ func (p *staticProp) Check(in map[string]any, model json.RawMessage) Verdict {
 func init() {
 	props["C01"] = func() Prop {
 		return &staticProp{id: "C01", nQuick: 1500, nThor: 60000, oracle: oracleC01,
-			rule: "well-formed feeds (1-3 agencies incl. second zones and unknown zones, up to 5 routes, 12 stops in hierarchies, calendar and calendar_dates mixes, up to 3 shapes with unordered points, 7 trips with interleaved unordered stop times, frequencies, transfers; every optional default-bearing field explicit; values stressing decoding: hours past 24, many fractional digits, negative and exponent decimals, padded numbers, commas/quotes/line feeds/multi-byte text) rendered under two independent presentations (column permutation, unknown extra columns, forced and mixed quoting, LF/CRLF/mixed, BOM, missing final newline, member order, extra members, store/deflate) plus the plain one; the result is compared with the model, across presentations, and field by field with the generated cells; distinct = distinct input JSON; non-trivial = at least 2 rows in at least 3 files",
+			rule: "well-formed feeds (1-3 agencies incl. second zones and unknown zones, up to 5 routes, 12 stops in hierarchies, calendar and calendar_dates mixes, up to 3 shapes with unordered points, 7 trips with interleaved unordered stop times, frequencies, transfers; every optional default-bearing field explicit; one case in five with every identifier replaced by an unusual but legal one (blanks inside and around, case and blank twins, number/boolean/null look-alikes, CSV metacharacters, multi-byte, 240 bytes long); values stressing decoding: hours past 24, many fractional digits, negative and exponent decimals, padded numbers, commas/quotes/line feeds/multi-byte text) rendered under two independent presentations (column permutation, unknown extra columns, forced and mixed quoting, LF/CRLF/mixed, BOM, missing final newline, member order, extra members, store/deflate) plus the plain one; the result is compared with the model, across presentations, and field by field with the generated cells; distinct = distinct input JSON; non-trivial = at least 2 rows in at least 3 files",
 			gen: func(r *Rng, tier string, i int) map[string]any {
 				f := genFeed(r, feedOpts{})
+				if i%5 == 3 {
+					renameIDs(r, f) // ids verbatim: unusual but legal identifiers
+				}
 				return staticCase(f.members(r, true, nil), [][]member{f.members(r, true, nil), f.members(r, false, nil)}, false,
 					map[string]any{"deflate": r.Bool(), "truth": f.truth()})
 			},
@@ -238,6 +241,9 @@ func shuffledRows(r *Rng, rows [][]string, mode int) [][]string {
 
 func genC08(r *Rng, tier string, i int) map[string]any {
 	f := genFeed(r, feedOpts{})
+	if i%6 == 4 {
+		renameIDs(r, f)
+	}
 	var variants [][]member
 	for mode := 0; mode < 3; mode++ {
 		g := f.clone()
